@@ -11,12 +11,14 @@ Variable parse_body : bytes -> option (list bytes).
 Variable validate : list bytes -> window -> list bytes -> option (list acert).
 Variable build_precert_tbs : bytes -> option acert -> option bytes.
 Variable sha : bytes -> bytes.
+Notation hgen := (handler_gen parse_body validate build_precert_tbs sha).
 Notation handler := (handler parse_body validate build_precert_tbs sha).
+Notation handler_prefix := (handler_prefix parse_body validate build_precert_tbs sha).
 Notation spec := (rfc6962_entry_spec build_precert_tbs sha).
 Notation acceptable := (acceptable parse_body validate build_precert_tbs sha).
 
 (* the part of the handler after a successful validation *)
-Definition post (ep : endpoint) (now : Z) (chain : list acert) : outcome :=
+Definition post (k : codes) (ep : endpoint) (now : Z) (chain : list acert) : outcome :=
   match nth_error chain 0 with
   | None => Crash
   | Some c0 =>
@@ -33,7 +35,7 @@ Definition post (ep : endpoint) (now : Z) (chain : list acert) : outcome :=
         if (match pre_issuer with Some _ => true | None => false end) && (length chain <? 3)%nat
         then Rejected 400
         else match build_precert_tbs (c_tbs c0) pre_issuer with
-        | None => Rejected 500
+        | None => Rejected (k_tbs k)
         | Some tbs =>
           let ikh := match pre_issuer with
                      | Some _ => match nth_error chain 2 with
@@ -51,12 +53,12 @@ Definition post (ep : endpoint) (now : Z) (chain : list acert) : outcome :=
     end
   end.
 
-Lemma handler_validated ep roots win now body raws chain :
+Lemma handler_validated k ep roots win now body raws chain :
   blen body <= max_body -> parse_body body = Some raws -> raws <> [] ->
   validate roots win raws = Some chain ->
-  handler ep roots win now body = post ep now chain.
+  hgen k ep roots win now body = post k ep now chain.
 Proof.
-  intros Hl Hp Hr Hv. unfold Model.handler, post.
+  intros Hl Hp Hr Hv. unfold handler_gen, post.
   destruct (max_body <? blen body) eqn:E; [apply N.ltb_lt in E; lia|].
   rewrite Hp. destruct raws as [|r rs]; [congruence|]. rewrite Hv. reflexivity.
 Qed.
@@ -69,11 +71,11 @@ Definition tbs_fails (chain : list acert) : Prop :=
 
 (* the comparison of the two definitions: on every non-empty chain the transcription computes
    the specification entry and applies the endpoint check; it never panics *)
-Lemma post_spec ep now c0 rest :
+Lemma post_spec k ep now c0 rest :
   match spec (c0 :: rest) with
-  | Some e => post ep now (c0 :: rest) = finish ep e (low_priority now c0)
-  | None => (post ep now (c0 :: rest) = Rejected 400 /\ ~ tbs_fails (c0 :: rest)) \/
-            (post ep now (c0 :: rest) = Rejected 500 /\ tbs_fails (c0 :: rest))
+  | Some e => post k ep now (c0 :: rest) = finish ep e (low_priority now c0)
+  | None => (post k ep now (c0 :: rest) = Rejected 400 /\ ~ tbs_fails (c0 :: rest)) \/
+            (post k ep now (c0 :: rest) = Rejected (k_tbs k) /\ tbs_fails (c0 :: rest))
   end.
 Proof.
   unfold post, rfc6962_entry_spec, is_precertificate. cbn [nth_error skipn].
@@ -124,9 +126,9 @@ Proof.
   destruct chain as [|c0 rest]; [discriminate|]. eauto.
 Qed.
 
-(* ---- C09_accept ---- *)
-Theorem accept_sound ep roots win now body e low :
-  handler ep roots win now body = Accepted e low ->
+(* ---- C09_accept (for any pair of codes, hence for the current and the pre-fix handler) ---- *)
+Theorem accept_sound_gen k ep roots win now body e low :
+  hgen k ep roots win now body = Accepted e low ->
   exists raws chain leaf root,
     blen body <= max_body /\ parse_body body = Some raws /\ raws <> [] /\
     validate roots win raws = Some chain /\
@@ -140,28 +142,40 @@ Theorem accept_sound ep roots win now body e low :
 Proof.
   intros H.
   assert (Hl : blen body <= max_body).
-  { unfold Model.handler in H. destruct (max_body <? blen body) eqn:E; [discriminate|].
+  { unfold handler_gen in H. destruct (max_body <? blen body) eqn:E; [discriminate|].
     apply N.ltb_ge in E. exact E. }
-  unfold Model.handler in H.
+  assert (H0 := H). unfold handler_gen in H.
   destruct (max_body <? blen body) eqn:E; [discriminate|].
   destruct (parse_body body) as [raws|] eqn:Hp; [|discriminate].
   destruct raws as [|r rs]; [discriminate|].
   destruct (validate roots win (r :: rs)) as [chain|] eqn:Hv; [|discriminate].
-  assert (Hh : Model.handler parse_body validate build_precert_tbs sha ep roots win now body = post ep now chain).
-  { apply handler_validated with (raws := r :: rs) (roots := roots) (win := win); auto. discriminate. }
-  assert (Hpost : post ep now chain = Accepted e low).
-  { rewrite <- Hh. unfold Model.handler. rewrite E, Hp, Hv. exact H. }
+  assert (Hr : r :: rs <> []) by discriminate.
+  assert (Hpost : post k ep now chain = Accepted e low).
+  { rewrite <- (handler_validated k ep roots win now body (r :: rs) chain Hl Hp Hr Hv). exact H0. }
   destruct (validated_nonempty _ _ _ _ Hv) as (c0 & rest & ->).
   destruct (Hval _ _ _ _ Hv) as [(leaf & Hhd & Hwin & Heku) (root & Hlast & Hin) Hsub].
   cbn in Hhd. inversion Hhd; subst leaf.
-  pose proof (post_spec ep now c0 rest) as Hs.
+  pose proof (post_spec k ep now c0 rest) as Hs.
   destruct (spec (c0 :: rest)) as [e1|] eqn:Es.
   - rewrite Hs in Hpost. apply finish_accepted in Hpost. destruct Hpost as (-> & -> & Hpre).
     exists (r :: rs), (c0 :: rest), c0, root.
-    repeat split; auto; try discriminate; try lia.
+    repeat split; auto; try lia.
     unfold endpoint_matches, is_precertificate. rewrite (spec_pre _ _ _ Es), Hpre. reflexivity.
   - destruct Hs as [[Hs _]|[Hs _]]; rewrite Hs in Hpost; discriminate.
 Qed.
+
+Theorem accept_sound ep roots win now body e low :
+  handler ep roots win now body = Accepted e low ->
+  exists raws chain leaf root,
+    blen body <= max_body /\ parse_body body = Some raws /\ raws <> [] /\
+    validate roots win raws = Some chain /\
+    hd_error chain = Some leaf /\ endpoint_matches ep leaf /\
+    spec chain = Some e /\
+    low = low_priority now leaf /\
+    (w_start win <= c_not_after leaf < w_limit win)%Z /\ c_server_auth leaf = true /\
+    last_error chain = Some root /\ In (c_raw root) roots /\
+    (raws = map c_raw chain \/ raws = map c_raw (removelast chain)).
+Proof. exact (accept_sound_gen fixed_codes ep roots win now body e low). Qed.
 
 (* the low_priority metric label is the priority handed to the pool *)
 Lemma low_label_accepted ep roots win now body e low :
@@ -176,13 +190,13 @@ Proof.
 Qed.
 
 (* ---- completeness: an acceptable request reaches the pool ---- *)
-Theorem accept_complete ep roots win now body :
-  acceptable ep roots win body -> exists e low, handler ep roots win now body = Accepted e low.
+Theorem accept_complete_gen k ep roots win now body :
+  acceptable ep roots win body -> exists e low, hgen k ep roots win now body = Accepted e low.
 Proof.
   intros (Hl & raws & chain & leaf & Hp & Hr & Hv & Hhd & Hep & Hs).
-  rewrite (handler_validated ep roots win now body raws chain Hl Hp Hr Hv).
+  rewrite (handler_validated k ep roots win now body raws chain Hl Hp Hr Hv).
   destruct chain as [|c0 rest]; [discriminate|]. cbn in Hhd. inversion Hhd; subst leaf.
-  pose proof (post_spec ep now c0 rest) as Hps.
+  pose proof (post_spec k ep now c0 rest) as Hps.
   destruct (spec (c0 :: rest)) as [e|] eqn:Es; [|congruence].
   rewrite Hps. exists e, (low_priority now c0).
   unfold finish, check_type. unfold endpoint_matches, is_precertificate in Hep.
@@ -190,79 +204,115 @@ Proof.
   destruct ep; rewrite Hpre; reflexivity.
 Qed.
 
-(* the two circumstances in which sunlight answers a non-acceptable request with 500 *)
-Definition server_error_case (roots : list bytes) (win : window) (body : bytes) : Prop :=
-  max_body < blen body \/
+Theorem accept_complete ep roots win now body :
+  acceptable ep roots win body -> exists e low, handler ep roots win now body = Accepted e low.
+Proof. exact (accept_complete_gen fixed_codes ep roots win now body). Qed.
+
+(* the two circumstances whose status code the fix commits changed *)
+Definition oversize_case (body : bytes) : Prop := max_body < blen body.
+Definition tbs_case (roots : list bytes) (win : window) (body : bytes) : Prop :=
+  blen body <= max_body /\
   exists raws chain, parse_body body = Some raws /\ raws <> [] /\
     validate roots win raws = Some chain /\ tbs_fails chain.
 
-(* ---- C09_reject (proved part) ---- *)
-Theorem reject_sound ep roots win now body :
+(* ---- rejection, for any pair of codes ---- *)
+Theorem reject_gen k ep roots win now body :
   ~ acceptable ep roots win body ->
-  exists code, handler ep roots win now body = Rejected code /\
-    ((400 <= code < 500)%Z \/ (code = 500%Z /\ server_error_case roots win body)).
+  exists code, hgen k ep roots win now body = Rejected code /\
+    (code = 400%Z \/ (code = k_oversize k /\ oversize_case body) \/
+     (code = k_tbs k /\ tbs_case roots win body)).
 Proof.
   intros Hna.
   destruct (max_body <? blen body) eqn:E.
-  { exists 500%Z. unfold Model.handler. rewrite E. split; [reflexivity|].
-    right. split; [reflexivity|]. left. apply N.ltb_lt in E. exact E. }
+  { exists (k_oversize k). unfold handler_gen. rewrite E. split; [reflexivity|].
+    right. left. split; [reflexivity|]. apply N.ltb_lt in E. exact E. }
   apply N.ltb_ge in E.
   destruct (parse_body body) as [raws|] eqn:Hp.
-  2:{ exists 400%Z. unfold Model.handler.
+  2:{ exists 400%Z. unfold handler_gen.
       destruct (max_body <? blen body) eqn:E'; [apply N.ltb_lt in E'; lia|].
-      rewrite Hp. split; [reflexivity|left; lia]. }
+      rewrite Hp. split; [reflexivity|left; reflexivity]. }
   destruct raws as [|r rs].
-  { exists 400%Z. unfold Model.handler.
+  { exists 400%Z. unfold handler_gen.
     destruct (max_body <? blen body) eqn:E'; [apply N.ltb_lt in E'; lia|].
-    rewrite Hp. split; [reflexivity|left; lia]. }
+    rewrite Hp. split; [reflexivity|left; reflexivity]. }
   destruct (validate roots win (r :: rs)) as [chain|] eqn:Hv.
-  2:{ exists 400%Z. unfold Model.handler.
+  2:{ exists 400%Z. unfold handler_gen.
       destruct (max_body <? blen body) eqn:E'; [apply N.ltb_lt in E'; lia|].
-      rewrite Hp, Hv. split; [reflexivity|left; lia]. }
+      rewrite Hp, Hv. split; [reflexivity|left; reflexivity]. }
   assert (Hr : r :: rs <> []) by discriminate.
-  rewrite (handler_validated ep roots win now body (r :: rs) chain E Hp Hr Hv).
+  rewrite (handler_validated k ep roots win now body (r :: rs) chain E Hp Hr Hv).
   destruct (validated_nonempty _ _ _ _ Hv) as (c0 & rest & ->).
-  pose proof (post_spec ep now c0 rest) as Hps.
+  pose proof (post_spec k ep now c0 rest) as Hps.
   destruct (spec (c0 :: rest)) as [e|] eqn:Es.
   - rewrite Hps. unfold finish. destruct (check_type ep e) eqn:Ec.
-    + exists 400%Z. split; [reflexivity|left; lia].
+    + exists 400%Z. split; [reflexivity|left; reflexivity].
     + exfalso. apply Hna. split; [exact E|].
       exists (r :: rs), (c0 :: rest), c0. repeat split; auto; try congruence.
       unfold endpoint_matches, is_precertificate. rewrite (spec_pre _ _ _ Es).
       unfold check_type in Ec. destruct ep; destruct (p_pre e); try discriminate; reflexivity.
   - destruct Hps as [[Hps _]|[Hps Ht]]; rewrite Hps.
-    + exists 400%Z. split; [reflexivity|left; lia].
-    + exists 500%Z. split; [reflexivity|]. right. split; [reflexivity|]. right.
-      exists (r :: rs), (c0 :: rest). auto.
+    + exists 400%Z. split; [reflexivity|left; reflexivity].
+    + exists (k_tbs k). split; [reflexivity|]. right. right. split; [reflexivity|].
+      split; [exact E|]. exists (r :: rs), (c0 :: rest). auto.
 Qed.
 
-(* nothing reaches the pool unless the request is acceptable, and the handler never panics *)
+(* ---- C09_reject, full strength, for the handler as it is now ---- *)
+Theorem reject_sound ep roots win now body :
+  ~ acceptable ep roots win body ->
+  exists code, (400 <= code < 500)%Z /\ handler ep roots win now body = Rejected code.
+Proof.
+  intros Hna. destruct (reject_gen fixed_codes ep roots win now body Hna) as (c & Hc & Hk).
+  exists c. split; [|exact Hc].
+  destruct Hk as [->|[[-> _]|[-> _]]]; cbn; lia.
+Qed.
+
+(* nothing reaches the pool unless the request is acceptable (any codes) *)
+Theorem reject_no_pool_gen k ep roots win now body :
+  ~ acceptable ep roots win body -> forall e low, hgen k ep roots win now body <> Accepted e low.
+Proof.
+  intros Hna e low H. destruct (reject_gen k ep roots win now body Hna) as (c & Hc & _). congruence.
+Qed.
+
 Theorem reject_no_pool ep roots win now body :
   ~ acceptable ep roots win body -> forall e low, handler ep roots win now body <> Accepted e low.
+Proof. exact (reject_no_pool_gen fixed_codes ep roots win now body). Qed.
+
+(* the handler before the fix commits: 4xx except in the two circumstances, where it said 500 *)
+Theorem prefix_reject_partial ep roots win now body :
+  ~ acceptable ep roots win body ->
+  exists code, handler_prefix ep roots win now body = Rejected code /\
+    ((400 <= code < 500)%Z \/
+     (code = 500%Z /\ (oversize_case body \/ tbs_case roots win body))).
 Proof.
-  intros Hna e low H. destruct (reject_sound ep roots win now body Hna) as (c & Hc & _). congruence.
+  intros Hna. destruct (reject_gen prefix_codes ep roots win now body Hna) as (c & Hc & Hk).
+  exists c. split; [exact Hc|].
+  destruct Hk as [->|[[-> Ho]|[-> Ht]]]; [left; lia|right|right]; cbn; auto.
 Qed.
 
-Theorem no_crash ep roots win now body : handler ep roots win now body <> Crash.
+Theorem no_crash_gen k ep roots win now body : hgen k ep roots win now body <> Crash.
 Proof.
-  intros H. unfold Model.handler in H.
+  intros H. assert (H0 := H). unfold handler_gen in H.
   destruct (max_body <? blen body) eqn:E; [discriminate|]. apply N.ltb_ge in E.
   destruct (parse_body body) as [raws|] eqn:Hp; [|discriminate].
   destruct raws as [|r rs]; [discriminate|].
   destruct (validate roots win (r :: rs)) as [chain|] eqn:Hv; [|discriminate].
-  assert (Hpost : post ep now chain = Crash) by exact H.
+  assert (Hr : r :: rs <> []) by discriminate.
+  rewrite (handler_validated k ep roots win now body (r :: rs) chain E Hp Hr Hv) in H0.
   destruct (validated_nonempty _ _ _ _ Hv) as (c0 & rest & ->).
-  pose proof (post_spec ep now c0 rest) as Hps.
+  pose proof (post_spec k ep now c0 rest) as Hps.
   destruct (spec (c0 :: rest)) as [e|].
-  - rewrite Hps in Hpost. unfold finish in Hpost. destruct (check_type ep e); discriminate.
-  - destruct Hps as [[Hps _]|[Hps _]]; rewrite Hps in Hpost; discriminate.
+  - rewrite Hps in H0. unfold finish in H0. destruct (check_type ep e); discriminate.
+  - destruct Hps as [[Hps _]|[Hps _]]; rewrite Hps in H0; discriminate.
 Qed.
 
-(* the only codes produced before the pool are 400 and 500 *)
-Lemma rejected_codes ep roots win now body c :
-  handler ep roots win now body = Rejected c -> c = 400%Z \/ c = 500%Z.
+Theorem no_crash ep roots win now body : handler ep roots win now body <> Crash.
+Proof. exact (no_crash_gen fixed_codes ep roots win now body). Qed.
+
+(* the only codes produced before the pool *)
+Lemma rejected_codes k ep roots win now body c :
+  hgen k ep roots win now body = Rejected c -> c = 400%Z \/ c = k_oversize k \/ c = k_tbs k.
 Proof.
-  unfold Model.handler, finish.
+  unfold handler_gen, finish.
   repeat match goal with
   | |- context [match ?x with _ => _ end] => destruct x
   | |- context [if ?x then _ else _] => destruct x
@@ -276,7 +326,7 @@ Theorem status_200 ep roots win now body w ext_ok sign_ok :
   acceptable ep roots win body /\ w = WOk.
 Proof.
   unfold http_status. destruct (Model.handler _ _ _ _ ep roots win now body) eqn:H.
-  - intros Hc. inversion Hc; subst. apply rejected_codes in H. lia.
+  - intros Hc. inversion Hc; subst. apply (rejected_codes fixed_codes) in H. cbn in H. lia.
   - intros Hc. split.
     + apply accept_sound in H.
       destruct H as (raws & chain & leaf & root & Hl & Hp & Hr & Hv & Hhd & Hep & Hs & _).
